@@ -97,4 +97,35 @@ theorem pyInt_intStr (v : Int) : pyInt (intStr v) = some v := by
     rw [pyInt_natDigits]
     congr 1; omega
 
+/-! ## typed access after the text round trip -/
+
+theorem dictGet_strVals (k : Str) (ps : List (Str × PVal)) :
+    dictGet k (ps.map fun p => (p.1, PVal.s p.2.render)) = (dictGet k ps).map fun v => PVal.s v.render := by
+  induction ps with
+  | nil => rfl
+  | cons p r ih =>
+    obtain ⟨k', v⟩ := p
+    simp only [List.map, dictGet]
+    split
+    · rfl
+    · exact ih
+
+/-- `u[field]` is the same on a URL and on the URL with every value rendered to text (what `parse (repr u)` holds):
+string parameters, int parameters held as ints (`int(str(v)) = v`) or as text, absent ones, unknown names -/
+theorem getitem_strVals (u : URL) (field : Str) : getitem (strVals u) field = getitem u field := by
+  unfold getitem strVals
+  simp only [dictGet_strVals]
+  split
+  · cases dictGet field u.params with
+    | none => rfl
+    | some v => cases v <;> rfl
+  · split
+    · cases dictGet field u.params with
+      | none => rfl
+      | some v =>
+        cases v with
+        | s v => rfl
+        | i v => simp only [Option.map_some, PVal.render, pyInt_intStr]
+    · rfl
+
 end Nx.Nex.StationURL
